@@ -465,9 +465,26 @@ def check_make_total(ctx, rep, f):
     st = stores[0]
     key = u(st.targets[0].slice)
     m = u(st.targets[0].value)
-    atoms = fx.guard_atoms(fx.cfg.n_of(st))
+    atoms = list(fx.guard_atoms(fx.cfg.n_of(st)))
     nk = lambda t: t.replace(' ', '').strip('()')
-    guard = [a for a in atoms if a[0] == 'in' and a[2] == m and nk(a[1]) == nk(key)]
+    # the pairs may have been collected beforehand:  missing = [k for k in product(Q, Sigma) if k not in delta] ; for k in missing: ...
+    enum_stmt = st
+    for lp in walk_no_nested(f.node):
+        if isinstance(lp, ast.For) and any(x is st for x in ast.walk(lp)) and nk(u(lp.target)) == nk(key):
+            enum_stmt = lp
+            src = lp.iter
+            if isinstance(src, ast.Name):
+                defs = [n for n in walk_no_nested(f.node) if isinstance(n, ast.Assign) and len(n.targets) == 1 and isinstance(n.targets[0], ast.Name) and n.targets[0].id == src.id]
+                if len(defs) == 1:
+                    enum_stmt = defs[0]
+                    src = defs[0].value
+            if isinstance(src, (ast.ListComp, ast.GeneratorExp, ast.SetComp)) and len(src.generators) == 1 and nk(u(src.elt)) == nk(u(src.generators[0].target)):
+                for cond in src.generators[0].ifs:
+                    for a in atoms_of(cond, True):
+                        if a[0] == 'in' and nk(a[1]) == nk(u(src.elt)):
+                            atoms.append((a[0], key, a[2], a[3]))
+    alias = lambda t: u(resolve_alias(f, ast.parse(t, mode='eval').body)) if t.isidentifier() else t
+    guard = [a for a in atoms if a[0] == 'in' and alias(a[2]) == alias(m) and nk(a[1]) == nk(key)]
     trap = u(st.value)
     fresh = any(isinstance(d, ast.Call) and ctx.callee_name(f, d) == 'fresh_state' for d in single_def(f, trap))
     if guard and guard[0][3] is False:
@@ -481,15 +498,15 @@ def check_make_total(ctx, rep, f):
     # the trap state is added to Q before the completion loop so that it gets its own self-loops
     adds = [n for n in walk_no_nested(f.node) if isinstance(n, ast.Expr) and isinstance(n.value, ast.Call) and isinstance(n.value.func, ast.Attribute)
             and n.value.func.attr == 'add' and n.value.args and u(n.value.args[0]) == trap]
-    if adds and fx.cfg.dominates(fx.cfg.n_of(adds[0]), fx.cfg.n_of(st)):
-        rep.holds(RULE + '.M2', f, adds[0], 'the trap state joins Q before the completion loop (so it is completed too)')
+    if adds and fx.cfg.dominates(fx.cfg.n_of(adds[0]), fx.cfg.n_of(enum_stmt)) and fx.cfg.n_of(adds[0]) != fx.cfg.n_of(enum_stmt):
+        rep.holds(RULE + '.M2', f, adds[0], 'the trap state joins Q before the missing pairs are enumerated (so it is completed too)')
     else:
         rep.violates(RULE + '.M2', f, st, 'the trap state is not added to Q before the completion loop: it has no outgoing transitions and the result is not total')
 
 
 # ---- M6: Turing machine step ------------------------------------------------------------------------------------
 
-def check_tm_step(ctx, rep, f):
+def _check_tm_step_syntactic(ctx, rep, f):
     p_T, p_p, p_tape, p_head = [p.arg for p in f.pos_params][:4]
     fx = ctx.facts(f)
     # (1) head update
@@ -775,3 +792,69 @@ def check_reverse_agreement(ctx, rep, f_gen, f_chk, rule='R-AGREE.reverse'):
             else:
                 rep.violates(rule, f_gen, F if F is not None else c, 'the accepting set of the reversed automaton is `{}`, the checker of the exercise demands exactly {{{}.q0}}'.format(u(Fr) if Fr is not None else '?', p))
     return n
+
+
+
+def check_tm_step(ctx, rep, f):
+    """M6 -- the single step of a Turing machine, decided on a finite model with the analyser's evaluator: tapes of length
+    1..3, every head position, a transition that is present (writing another or the same symbol, moving L or R, to any
+    state) or missing.  Expected (Sipser, with the conventions of the property): present -> write, move, new state;
+    missing -> rejecting state, symbol kept, move right; a left move at the left end stays put; a move off the right end
+    appends one blank; no other cell changes and the transition table is not touched.  The step only indexes the tape and
+    compares the head with its ends, so these positions cover every case.  Outside the evaluator's fragment the older
+    syntactic version of the rule is used."""
+    from ..miniexec import Interp, Obj, Raised
+    ps = [p.arg for p in f.pos_params]
+    if len(ps) < 4:
+        return _check_tm_step_syntactic(ctx, rep, f)
+    cases = 0
+    bad = None
+    try:
+        for n in (1, 2, 3):
+            for head in range(n):
+                for trans in (None, ('q1', 'c', 'L'), ('q1', 'c', 'R'), ('p', 'a', 'L'), ('qa', 'b', 'R'), ('qr', '_', 'L')):
+                    tape = ['a', 'b', 'a'][:n]
+                    before = list(tape)
+                    delta = {}
+                    if trans is not None:
+                        delta[('p', tape[head])] = trans
+                    delta[('other', 'z')] = ('other', 'z', 'R')
+                    snapshot = dict(delta)
+                    T = Obj('TM', delta=delta, q0='p', q_accept='qa', q_reject='qr', blank='_', Q={'p', 'q1', 'qa', 'qr', 'other'}, Sigma={'a', 'b'}, Gamma={'a', 'b', 'c', 'z', '_'})
+                    try:
+                        r = Interp(ctx).call(f, [T, 'p', tape, head])
+                    except Raised as ex:
+                        bad = (n, head, trans, 'raises {}'.format(ex.name))
+                        break
+                    cases += 1
+                    q1, b, d = trans if trans is not None else ('qr', before[head], 'R')
+                    want_head = max(head - 1, 0) if d == 'L' else head + 1
+                    want_tape = list(before)
+                    want_tape[head] = b
+                    if want_head == len(want_tape):
+                        want_tape.append('_')
+                    what = 'the transition {} -> {}'.format(('p', before[head]), trans) if trans is not None else 'no transition for {}'.format(('p', before[head]))
+                    if not (isinstance(r, tuple) and len(r) == 2):
+                        raise Unsupported('result is not a pair (state, head)')
+                    if r[0] != q1:
+                        bad = (n, head, trans, 'with {} the new state is {} but must be {}'.format(what, r[0], q1))
+                    elif r[1] != want_head:
+                        bad = (n, head, trans, 'with {} the head moves from {} to {} but must move to {} (a left move at the left end stays put; a missing transition moves right)'.format(what, head, r[1], want_head))
+                    elif tape != want_tape:
+                        bad = (n, head, trans, 'with {} the tape {} becomes {} but must become {} (write at the old head position; one blank is appended when the head leaves the right end)'.format(what, before, tape, want_tape))
+                    elif delta != snapshot:
+                        bad = (n, head, trans, 'the step changes the transition table of the machine (a read of a missing transition inserts it)')
+                    if bad:
+                        break
+                if bad:
+                    break
+            if bad:
+                break
+    except Unsupported as e:
+        rep.note('{}: finite-model evaluation of the TM step not applicable ({}); syntactic rule used'.format(f.short, e))
+        return _check_tm_step_syntactic(ctx, rep, f)
+    if bad:
+        n, head, trans, msg = bad
+        rep.violates(RULE + '.M6', f, 'def ' + f.name, 'TM step on a tape of length {} with the head at {}: {}'.format(n, head, msg))
+    else:
+        rep.holds(RULE + '.M6', f, 'def ' + f.name, 'the step agrees with the definition on all {} cases of the finite model (tapes of length 1..3, every head position, present / missing transitions, both directions)'.format(cases))
